@@ -78,8 +78,23 @@ Definition remount (st : kstate) (anchor : option node) : kstate * list event :=
 (** a step of a history: a key list, or [(-1)] = unmount + mount again.  [keep] says which events the harness
     logs (rows that are plain elements cannot log their own mount / unmount).  After the last step the list is
     unmounted: the last entry shows what is left in the parent. *)
-Fixpoint run_steps (lab : item -> labels) (keep : event -> bool) (anchor : option node) (t : labels) (st : kstate)
-                   (ls : list (list Z)) : list sexp :=
+Definition no_mounts (l : list event) : list event :=
+  filter (fun e => match e with EvMount _ _ => false | _ => true end) l.
+
+(** [state.mount(&parent, anchor)] of a list that is not in the parent *)
+Definition mount_again (st : kstate) (anchor : option node) : kstate * list event :=
+  let w0 := {| w_children := []; w_dom := ks_dom st; w_log := [];
+               w_next := ks_next st; w_gen := ks_gen st; w_panic := false |} in
+  let w1 := fold_left (step_mount anchor) (ks_items st) w0 in
+  ({| ks_bld := ks_bld st; ks_dom := insert_before (ks_marker st) anchor (w_dom w1); ks_marker := ks_marker st;
+      ks_keys := ks_keys st; ks_items := ks_items st; ks_next := ks_next st; ks_gen := ks_gen st |}, w_log w1).
+
+Definition with_ks_dom (st : kstate) (d : list node) : kstate :=
+  {| ks_bld := ks_bld st; ks_dom := d; ks_marker := ks_marker st; ks_keys := ks_keys st;
+     ks_items := ks_items st; ks_next := ks_next st; ks_gen := ks_gen st |}.
+
+Fixpoint run_steps (lab : item -> labels) (keep : event -> bool) (anchor : option node) (hidden : bool) (t : labels)
+                   (st : kstate) (ls : list (list Z)) : list sexp :=
   match ls with
   | [] =>
       [Lst [s_children t (ks_dom st) (unmount st);
@@ -87,13 +102,28 @@ Fixpoint run_steps (lab : item -> labels) (keep : event -> bool) (anchor : optio
   | [(-1)%Z] :: rest =>
       let '(st', log) := remount st anchor in
       Lst [s_children t (ks_dom st) (ks_dom st'); Lst (map s_event (filter keep log))]
-      :: run_steps lab keep anchor t st' rest
+      :: run_steps lab keep anchor hidden t st' rest
+  | [(-2)%Z] :: rest =>
+      (* unmounted by a parent that keeps the state: rows and marker leave the DOM *)
+      let st' := with_ks_dom st (unmount st) in
+      Lst [s_children t (ks_dom st) (ks_dom st');
+           Lst (map s_event (filter keep (map (fun it => EvUnmount (it_key it) (it_gen it)) (ks_items st))))]
+      :: run_steps lab keep anchor true t st' rest
+  | [(-3)%Z] :: rest =>
+      let '(st', log) := mount_again st anchor in
+      Lst [s_children t (ks_dom st) (ks_dom st'); Lst (map s_event (filter keep log))]
+      :: run_steps lab keep anchor false t st' rest
+  | [(-4)%Z] :: rest =>
+      Lst [s_children t (ks_dom st) (ks_dom st); Lst []] :: run_steps lab keep anchor hidden t st rest
   | l :: rest =>
+      (* a list that is not in the DOM is diffed all the same: every insertion relative to a detached node
+         or marker is the no-op of Dom.insert_before, every removal removes nothing; [mount] places the rows *)
       let '(st', log, p) := rebuild st (map Z.to_N l) in
       if p then [Lst [Num (-9)]] else
       let t' := t ++ flat_map lab (ks_items st') in
-      Lst [s_children t' (ks_dom st) (ks_dom st'); Lst (map s_event (filter keep log))]
-      :: run_steps lab keep anchor t' st' rest
+      Lst [s_children t' (ks_dom st) (ks_dom st');
+           Lst (map s_event (filter keep (if hidden then no_mounts log else log)))]
+      :: run_steps lab keep anchor hidden t' st' rest
   end.
 
 Definition keep_all (e : event) : bool := true.
@@ -205,8 +235,12 @@ Definition run_C11 (c : sexp) : sexp :=
   match ls with
   | [] => Lst []
   | l0 :: rest =>
-      let '(st, log) := build_mount bld (pre ++ post) (hd_error post) (N.of_nat (npre + npost)) (map Z.to_N l0) in
+      let '(st1, log1) := build_mount bld (pre ++ post) (hd_error post) (N.of_nat (npre + npost)) (map Z.to_N l0) in
+      (* a step (-4) right after the first list: built, but not mounted yet *)
+      let deferred := match rest with [(-4)%Z] :: _ => true | _ => false end in
+      let st := if deferred then with_ks_dom st1 (pre ++ post) else st1 in
+      let log := if deferred then no_mounts log1 else log1 in
       let t := t0 ++ [(ks_marker st, ((-3)%Z, 0%Z, 0%Z))] ++ flat_map lab (ks_items st) in
       Lst (Lst [s_children t (pre ++ post) (ks_dom st); Lst (map s_event (filter keep log))]
-           :: run_steps lab keep (hd_error post) t st rest)
+           :: run_steps lab keep (hd_error post) deferred t st rest)
   end.
